@@ -1,0 +1,98 @@
+//! Simulation seams for the verification harness.
+//!
+//! Compiled only with `--cfg squitterator_verif`; the shipped build never sees
+//! this module.  It lets a harness own every source of I/O and time the reader
+//! loop touches: TCP connect/read, file open/read, the retry `sleep`, and
+//! standard output.  Nothing here changes behaviour by itself - every call is
+//! forwarded to whatever `World` the harness installed.
+use std::io;
+use std::sync::Mutex;
+use std::time::Duration;
+
+/// The environment as seen by the reader thread.
+pub trait World: Send {
+    /// `TcpStream::connect(addr)`; `Ok(id)` names the new connection.
+    fn connect(&mut self, addr: &str) -> io::Result<u64>;
+    /// `File::open(path)` of the input file.
+    fn open(&mut self, path: &str) -> io::Result<u64>;
+    /// `Read::read` on a stream handed out by `connect` / `open`.
+    fn read(&mut self, id: u64, buf: &mut [u8]) -> io::Result<usize>;
+    /// `std::thread::sleep`.
+    fn sleep(&mut self, d: Duration);
+    /// Everything `print!` / `println!` would have written to stdout.
+    fn print(&mut self, s: &str);
+}
+
+static WORLD: Mutex<Option<Box<dyn World>>> = Mutex::new(None);
+
+/// Installs (or removes) the world; returns the previous one.
+pub fn install(w: Option<Box<dyn World>>) -> Option<Box<dyn World>> {
+    std::mem::replace(&mut *WORLD.lock().unwrap_or_else(|e| e.into_inner()), w)
+}
+
+fn with<R>(f: impl FnOnce(&mut dyn World) -> R) -> R {
+    // The world is taken out of the slot for the duration of the call so that
+    // an unwind started by the world itself (end of simulation) neither
+    // poisons the slot nor loses the world.
+    let mut w = WORLD
+        .lock()
+        .unwrap_or_else(|e| e.into_inner())
+        .take()
+        .expect("verif_seam: no world installed");
+    let r = std::panic::catch_unwind(std::panic::AssertUnwindSafe(|| f(w.as_mut())));
+    *WORLD.lock().unwrap_or_else(|e| e.into_inner()) = Some(w);
+    match r {
+        Ok(v) => v,
+        Err(p) => std::panic::resume_unwind(p),
+    }
+}
+
+pub fn print_str(s: String) {
+    with(|w| w.print(&s))
+}
+
+pub fn sleep(d: Duration) {
+    with(|w| w.sleep(d))
+}
+
+pub struct Stream(u64);
+
+impl io::Read for Stream {
+    fn read(&mut self, buf: &mut [u8]) -> io::Result<usize> {
+        with(|w| w.read(self.0, buf))
+    }
+}
+
+pub struct TcpStream;
+
+impl TcpStream {
+    pub fn connect(addr: &str) -> io::Result<Stream> {
+        with(|w| w.connect(addr)).map(Stream)
+    }
+}
+
+pub struct File;
+
+impl File {
+    pub fn open(path: &str) -> io::Result<Stream> {
+        with(|w| w.open(path)).map(Stream)
+    }
+
+    /// Output files (`-D`) stay real files.
+    pub fn create(path: &str) -> io::Result<std::fs::File> {
+        std::fs::File::create(path)
+    }
+}
+
+pub mod thread {
+    pub use std::thread::*;
+}
+
+macro_rules! print {
+    ($($a:tt)*) => { $crate::verif_seam::print_str(format!($($a)*)) }
+}
+
+macro_rules! println {
+    () => { $crate::verif_seam::print_str(String::from("\n")) };
+    ($($a:tt)*) => { $crate::verif_seam::print_str(format!($($a)*) + "\n") }
+}
